@@ -527,3 +527,39 @@ Proof.
 Qed.
 Corollary explicit_unset_roundtrip num : dec_explicit num (enc_field FCExplicit num (StOpt None)) = Ok None.
 Proof. reflexivity. Qed.
+
+(* ------------------------------------------------------------------ *)
+(** * 5. presenceIndex: fields that use the bitmap get distinct indices below presenceSize *)
+
+Lemma count_indices_app a b : count_indices (a ++ b) = count_indices a + count_indices b.
+Proof. induction a as [|[o l] r IH]; cbn [app count_indices]; [reflexivity|]. rewrite IH. lia. Qed.
+
+Lemma presence_index_lt_size fs j b :
+  nth_error fs j = Some (false, b) -> fst (presence_index fs j) < snd (presence_index fs j).
+Proof.
+  intros H. apply nth_error_split in H. destruct H as [l1 [l2 [-> Hlen]]].
+  unfold presence_index. cbn [fst snd].
+  rewrite firstn_app, <- Hlen, Nat.sub_diag, firstn_all. cbn [firstn]. rewrite app_nil_r.
+  rewrite count_indices_app. cbn [count_indices negb orb]. lia.
+Qed.
+
+Lemma presence_index_strict fs i j bi :
+  (i < j)%nat -> nth_error fs i = Some (false, bi) ->
+  fst (presence_index fs i) < fst (presence_index fs j).
+Proof.
+  intros Hij H. apply nth_error_split in H. destruct H as [l1 [l2 [-> Hlen]]].
+  unfold presence_index. cbn [fst].
+  rewrite !firstn_app, <- Hlen, Nat.sub_diag, firstn_all. cbn [firstn]. rewrite app_nil_r.
+  replace (firstn j l1) with l1 by (symmetry; apply firstn_all2; lia).
+  destruct (j - length l1)%nat as [|k] eqn:E; [lia|]. cbn [firstn].
+  rewrite count_indices_app. cbn [count_indices negb orb]. lia.
+Qed.
+
+Theorem presence_index_distinct fs i j bi bj :
+  i <> j -> nth_error fs i = Some (false, bi) -> nth_error fs j = Some (false, bj) ->
+  fst (presence_index fs i) <> fst (presence_index fs j).
+Proof.
+  intros Hne Hi Hj. destruct (Nat.lt_total i j) as [H|[H|H]]; [|congruence|].
+  - pose proof (presence_index_strict fs i j bi H Hi). lia.
+  - pose proof (presence_index_strict fs j i bj H Hj). lia.
+Qed.
